@@ -36,6 +36,16 @@ def run(ctx):
         rng.shuffle(combos)
         combos = combos if thorough else combos[:18] + [("relative", "absolute", None), ("relative", "relative", True), ("symlinked_parent", "relative", -1)]
         # names related as strings or as directories: one a string prefix of the other (siblings), one inside the other
+        # the two directories on different file systems (when this machine has a second writable one)
+        shm = None
+        try:
+            if os.path.isdir("/dev/shm") and os.access("/dev/shm", os.W_OK) and os.stat("/dev/shm").st_dev != os.stat(base).st_dev:
+                shm = tempfile.mkdtemp(prefix="ddsverif_c16_", dir="/dev/shm")
+        except OSError:
+            shm = None
+        if shm:
+            combos += [("absolute", "shm:data", None), ("shm:internal", "absolute", True)]
+            res.count("configurations_across_file_systems", 2)
         combos += [("x:/store_internal", "x:/store", None), ("x:/st", "x:/st_data", True), ("x:/dd/internal", "x:/dd", None),
                    ("x:/ii", "x:/ii/data", None), ("x:/proj.store", "x:/proj", 2)]
         w = progs.gen_world(rng, nfun=3, allow=("call", "keep", "datafn"))
@@ -64,6 +74,8 @@ def run(ctx):
             def spell(style, leaf):
                 if style.startswith("x:"):
                     return root + style[2:]
+                if style.startswith("shm:"):
+                    return os.path.join(shm, "c%d_%s" % (ci, style[4:]))
                 if style == "absolute":
                     return os.path.join(root, "abs_" + leaf)
                 if style == "relative":
@@ -245,6 +257,11 @@ def run(ctx):
     finally:
         pipeline.close_ref()
         shutil.rmtree(base, ignore_errors=True)
+        try:
+            if shm:
+                shutil.rmtree(shm, ignore_errors=True)
+        except NameError:
+            pass
     res.rule = ("configurations: internal_dir x data_dir spelled {absolute, relative, trailing slash, nested non-existing, symlinked parent, "
                 "relative with ..} x cache_objects {None, False, True, 0, -1, 3} (quick: 21 sampled combinations), each with chdir and a "
                 "second process; plus two data views on one internal directory; one case = one configuration")
